@@ -2,4 +2,6 @@
 ENGINES = [
     dict(name="codec", path="harness/c16_codec", serves_properties=["C16"], kind_free_text="direct calls of pure functions / codecs with rapid-generated inputs, plus native go fuzz targets in the thorough tier"),
 ]
+ENGINES.append(dict(name="simkv", path="harness/lib/simkv", serves_properties=["C07", "C08", "C09", "C10", "C11", "C12", "C13", "C14", "C15", "C19"],
+                    kind_free_text="the real server.Server / NamespaceMgr / KVNode handlers and applyEntries run in-process behind a synchronous fake raft.Node (hook: node/verif_export.go); the harness owns commit order, apply batching and log timestamps"))
 NOT_APPLICABLE = {}
